@@ -104,6 +104,17 @@ def run(tier, seed):
                 s = tc.with_extra_site(s, G.site, rng)
             if s:
                 recipes.append({"fn": "characterize", "base": {"kit": kit, "name": name}, "seq": gen.rotate(s, rng.randrange(len(s)))})
+    # a user hierarchy that specialises a CONCRETE kit type (a degenerate signature narrowed down): the type itself is a candidate
+    for spec, cls in kcs:
+        if not any(ch in "NRYSWKMBDHV" for ch in "".join(cls.signature).upper()) or rng.random() < (0.5 if q else 0.0):
+            continue
+        G = gen.geometry_of(cls.cutter)
+        narrow = [tc.sig_instance(cls.signature[0], rng), tc.sig_instance(cls.signature[1], rng)]
+        for inst in ([narrow] + [[tc.sig_instance(cls.signature[0], rng), tc.sig_instance(cls.signature[1], rng)] for _ in range(2)]):
+            s = G.module(inst[0], gen.rnd(4, rng), inst[1], gen.rnd(4, rng), rng) if classes.role_of(cls) == "module" \
+                else G.vector(inst[1], inst[0], gen.rnd(3, rng), gen.rnd(4, rng), rng)
+            if s:
+                recipes.append({"fn": "characterize", "base": dict(spec, subsigs=[narrow]), "seq": gen.rotate(s, rng.randrange(len(s)))})
     for espec, G in tc.geometries():
         for role in ("module", "vector"):
             sigs = [[tc.rnd_signature(G.ovh, rng), tc.rnd_signature(G.ovh, rng)] for _ in range(3)]
